@@ -261,6 +261,9 @@ func (h *c18ProtHist) exec(r *Run, line string) bool {
 		} else {
 			r.Op(line, "refused "+h.canon(h.f))
 		}
+	case "phxml":
+		r.Op("phxml", h.xmlAttrs())
+		return true
 	case "phswap":
 		g, err := c18Reopen(h.f)
 		if err != nil {
@@ -305,6 +308,9 @@ func c18ProtHistory(r *Run, workbook bool, script []string) {
 	h.exec(r, "phnew "+k)
 	for _, l := range script {
 		h.exec(r, l)
+		if strings.HasPrefix(l, "phprot") || strings.HasPrefix(l, "phunprot") {
+			h.exec(r, "phxml") // what the saved part contains after this step
+		}
 	}
 	h.exec(r, "phverify")
 	r.Case("protecth|"+strings.Join(h.lines, "|"), true)
